@@ -16,7 +16,7 @@ with the multiplication operator, to construct values such as `11 * e(-21)`.
 """
 
 from enum import Enum
-from decimal import Decimal
+from decimal import Decimal, InvalidOperation, localcontext
 from typing import Optional, Any, Union, Tuple
 from pydantic import BaseModel, Field
 from pydantic.dataclasses import dataclass
@@ -199,14 +199,16 @@ class Prefixed(BaseModel):
     #     yield cls.validate
 
     def __hash__(self):
-        return hash((self.number, self.prefix))
+        # Hash by value, so that equal numbers written with different prefixes hash equally
+        return hash(self.number * Decimal(10) ** self.prefix.value)
 
     def __int__(self) -> int:
-        return int(self.number) * 10**self.prefix.value
+        """Convert to int, truncating toward zero"""
+        return int(self.number * Decimal(10) ** self.prefix.value)
 
     def __float__(self) -> float:
-        """Convert to float"""
-        return float(self.number) * 10**self.prefix.value
+        """Convert to the nearest float"""
+        return float(self.number * Decimal(10) ** self.prefix.value)
 
     def __neg__(self) -> "Prefixed":
         return Prefixed.new(-self.number, self.prefix)
@@ -311,27 +313,27 @@ class Prefixed(BaseModel):
     # Comparison operators that respect class convention
     def __lt__(self, other) -> bool:
         lhs, rhs = _scale_to_smaller(self, other)
-        return round(lhs.number, EPSILON) < round(rhs.number, EPSILON)
+        return _rounded(lhs.number) < _rounded(rhs.number)
 
     def __le__(self, other) -> bool:
         lhs, rhs = _scale_to_smaller(self, other)
-        return round(lhs.number, EPSILON) <= round(rhs.number, EPSILON)
+        return _rounded(lhs.number) <= _rounded(rhs.number)
 
     def __eq__(self, other) -> bool:
         lhs, rhs = _scale_to_smaller(self, other)
-        return round(lhs.number, EPSILON) == round(rhs.number, EPSILON)
+        return _rounded(lhs.number) == _rounded(rhs.number)
 
     def __ne__(self, other) -> bool:
         lhs, rhs = _scale_to_smaller(self, other)
-        return round(lhs.number, EPSILON) != round(rhs.number, EPSILON)
+        return _rounded(lhs.number) != _rounded(rhs.number)
 
     def __gt__(self, other) -> bool:
         lhs, rhs = _scale_to_smaller(self, other)
-        return round(lhs.number, EPSILON) > round(rhs.number, EPSILON)
+        return _rounded(lhs.number) > _rounded(rhs.number)
 
     def __ge__(self, other) -> bool:
         lhs, rhs = _scale_to_smaller(self, other)
-        return round(lhs.number, EPSILON) >= round(rhs.number, EPSILON)
+        return _rounded(lhs.number) >= _rounded(rhs.number)
 
 
 # Union of the types which can be converted to `Prefixed`
@@ -386,13 +388,19 @@ def _scale_to_smaller(
     and is converted before scaling."""
 
     other = to_prefixed(other)
-    smaller = (
-        me.prefix
-        if me.number * Decimal(10**me.prefix.value)
-        < other.number * Decimal(10**other.prefix.value)
-        else other.prefix
-    )
+    smaller = me.prefix if me.prefix.value < other.prefix.value else other.prefix
     return me.scale(smaller), other.scale(smaller)
+
+
+def _rounded(number: Decimal) -> Decimal:
+    """# Round `number` to the `EPSILON` decimal places at which `Prefixed` values are compared."""
+    try:
+        return round(number, EPSILON)
+    except InvalidOperation:
+        # More digits than the current context holds. Round at the precision that takes.
+        with localcontext() as ctx:
+            ctx.prec = max(ctx.prec, number.adjusted() + EPSILON + 2)
+            return round(number, EPSILON)
 
 
 # Common prefixes as single-character identifiers, and exposed in the module namespace.
